@@ -188,7 +188,7 @@ pub fn run(tier: Tier, seed: u64) -> i32 {
                 prop: PROP.into(),
                 kind: format!("exact/{}", e.family),
                 label: format!("{} @ {}", e.label, l.name),
-                files: vec![("f".into(), rendered.text)],
+                files: vec![(if i % 16 == 15 { "@file:f" } else { "f" }.into(), rendered.text)],
                 expect: json!({"proj": proj_doc(&e.doc, false), "ranges": ranges}),
             })
         },
@@ -210,7 +210,7 @@ pub fn run(tier: Tier, seed: u64) -> i32 {
                     prop: PROP.into(),
                     kind: sp.name.clone(),
                     label,
-                    files: vec![("f".into(), text)],
+                    files: vec![(if i % 16 == 15 { "@file:f" } else { "f" }.into(), text)],
                     expect: json!(null),
                 })
             },
